@@ -69,6 +69,23 @@ fn featkeys(opts: &Opts) {
         for (name, bytes) in [("local", local.to_vec()), ("secret", sk), ("public", pk), ("pke-secret", ps), ("pke-public", pp)] {
             std::fs::write(format!("{dir}/v{}.{name}.bin", B::VER), bytes).expect("write key file");
         }
+        // byte strings that are NOT keys (and a few odd ones that are): every build must agree on them
+        let mut lines = String::new();
+        for (t, label, raw) in c04::degenerate_keys::<B>() {
+            let kind = match t {
+                c04::Target::KeyLocal => "local",
+                c04::Target::KeyPublic => "public",
+                c04::Target::KeySecret => "secret",
+                c04::Target::KeyPkePublic => "pke-public",
+                c04::Target::KeyPkeSecret => "pke-secret",
+                _ => continue,
+            };
+            if raw.len() > 3000 {
+                continue;
+            }
+            lines.push_str(&format!("{kind}\t{label}\t{}\n", hex::encode(&raw)));
+        }
+        std::fs::write(format!("{dir}/v{}.odd-keys.txt", B::VER), lines).expect("write odd keys");
     }
     let dir = opts.extra.first().expect("dir").clone();
     go::<V1>(&dir);
